@@ -11,16 +11,16 @@ RULE = ("netlists of the restricted subset (single module, no comments, one name
         "containing x_input, my_output, assign1, tie0, wire_a; plus the bundled c17; both parsers' circuits compared: "
         "io, registry, pin nets, graph identity modulo constant-node names, function; non-trivial = >=2 items")
 BOUND = "<= 4 inputs, <= 7 items, <= 2 blackbox instances; 4/16 hash seeds"
-ODD = ["x_input", "my_output", "assign1", "tie0", "wire_a", "inputx", "outputy", "a", "b", "c", "d", "e", "f", "g", "h", "k", "m"]
+ODD = ["x_input", "my_output", "assign1", "tie0", "wire_a", "inputx", "outputy", "b0", "b1", "b_0", "opb0", "a", "b", "c", "d", "e", "f", "g", "h", "k", "m"]
 
 
 def cases(tier, seed):
     rng = gen.rng_for(seed, "c14")
     n = 300 if tier == "quick" else 6000
     for i in range(n):
-        odd = rng.random() < 0.25
+        odd = rng.random() < 0.4
         nl = vlog.rand_netlist(rng, n_in=rng.randint(1, 4), n_items=rng.randint(1, 6), bb=rng.choice([0, 0, 1, 2]),
-                               restricted=True, unconnected=rng.choice([0.0, 0.3]), omitted=rng.choice([0.0, 0.2]),
+                               restricted=True, unconnected=rng.choice([0.0, 0.3]), omitted=rng.choice([0.0, 0.2]), const_pins=rng.choice([0.0, 0.4]),
                                names=(list(ODD) if odd else None))
         yield {"nl": nl, "layout": rng.choice(["plain", "fuzz", "fuzz", "tight"]), "order": rng.choice([None, "shuffle"]), "salt": i}
     yield {"lib": "c17"}
